@@ -422,6 +422,35 @@ class Check(Property):
                 want = 3 * sa
         if not close(rq.magnitude.std_dev, want) and not (want == 0 and rq.magnitude.std_dev == 0):
             v.append(f"{tag}: propagated error {rq.magnitude.std_dev}, first-order formula gives {want}")
+        v += self.oracle_correlated(u, a, b, tag)
+        return v
+
+    def oracle_correlated(self, u, a, b, tag):
+        """a derived measurement stays the same random variable: expressions that use an operand twice have the
+        first-order error of the simplified expression (2x - x = x, (x*x)/x = x, (x+y) - y = x, x.to(..) - x = 0)"""
+        v = []
+        import warnings
+        na, sa = a.magnitude.nominal_value, a.magnitude.std_dev
+        same_dim = a.dimensionality == b.dimensionality
+        exprs = [("2*x - x", lambda: 2 * a - a, na, sa), ("(x*x)/x", lambda: (a * a) / a, na, sa),
+                 ("(x*y)/y", lambda: (a * b) / b, na, sa), ("x.to(root) - x", lambda: a.to_root_units() - a, 0.0, 0.0)]
+        if same_dim:
+            exprs.append(("(x+y) - y", lambda: (a + b) - b, na, sa))
+        for name, fn, wn, ws in exprs:
+            if na == 0 or b.magnitude.nominal_value == 0:
+                continue
+            try:
+                with warnings.catch_warnings():
+                    warnings.simplefilter("ignore")
+                    r = fn().to(a.units)
+            except Exception as exc:  # noqa: BLE001
+                v.append(f"{tag}: {name} raised {type(exc).__name__}: {exc}")
+                continue
+            gn, gs = r.magnitude.nominal_value, r.magnitude.std_dev
+            scale = max(abs(na), sa, 1e-300)
+            if abs(gn - wn) > 1e-9 * scale or abs(gs - ws) > 1e-9 * max(sa, 1e-300) + 1e-12 * scale:
+                v.append(f"{tag}: {name} gives {gn} +/- {gs} {a.units}; x is {na} +/- {sa}, first-order propagation of the "
+                         f"simplified expression gives {wn} +/- {ws}")
         return v
 
     def oracle_format(self, u, c):
